@@ -418,6 +418,12 @@ def install(lib, np_):
 
   @ext(['scipy.linalg.eigh'], 'ASSUMED: as numpy.linalg.eigh (standard problem) ; generalised problem when b is given')
   def _seigh(cx, a, b=None, **kw):
+    for flag, arr in (('overwrite_a', a), ('overwrite_b', b)):
+      v = kw.get(flag)
+      if v is not None and not isinstance(v, VNone) and isinstance(arr, VArr):
+        if not (isinstance(v, VBool) and v.conc() is False):
+          # scipy may then use the array as LAPACK work space: its contents are destroyed (an in-place write into that array)
+          np_.write(cx, arr, 'scipy.linalg.eigh(%s=True)' % flag)
     if b is not None and not isinstance(b, VNone):
       # generalised problem a v = lambda b v: the eigenpairs are those of the PENCIL, not of a (no spectral facts about a are assumed)
       st = cx.st(a)
